@@ -411,9 +411,40 @@ def package_signatures(trees: Sequence[ast.Module]) -> Dict[str, List[str]]:
     return {k: v for k, v in seen.items() if k not in dup}
 
 
-def _inline_module_constants(tree: ast.Module) -> None:
+def module_string_constants(tree: ast.Module) -> Dict[str, str]:
+    """names bound exactly once in the module, at its top level, to a string literal"""
+    stores = _store_counts(tree)
+    out: Dict[str, str] = {}
+    for st in tree.body:
+        if isinstance(st, ast.Assign) and len(st.targets) == 1 and isinstance(st.targets[0], ast.Name) and isinstance(st.value, ast.Constant) and isinstance(st.value.value, str):
+            if stores.get(st.targets[0].id) == 1:
+                out[st.targets[0].id] = st.value.value
+    return out
+
+
+def _store_counts(tree: ast.Module) -> Dict[str, int]:
+    stores: Dict[str, int] = {}
+    for n in ast.walk(tree):
+        if isinstance(n, ast.Name) and isinstance(n.ctx, (ast.Store, ast.Del)):
+            stores[n.id] = stores.get(n.id, 0) + 1
+        elif isinstance(n, ast.arg):
+            stores[n.arg] = stores.get(n.arg, 0) + 1
+        elif isinstance(n, (ast.Global, ast.Nonlocal)):
+            for name in n.names:
+                stores[name] = stores.get(name, 0) + 2
+        elif isinstance(n, (ast.Import, ast.ImportFrom)):
+            for a in n.names:
+                nm = (a.asname or a.name).split(".")[0]
+                stores[nm] = stores.get(nm, 0) + 1
+        elif isinstance(n, (ast.FunctionDef, ast.AsyncFunctionDef, ast.ClassDef)):
+            stores[n.name] = stores.get(n.name, 0) + 1
+    return stores
+
+
+def _inline_module_constants(tree: ast.Module, imported: Optional[Dict[str, str]] = None) -> None:
     """`NAME = <string literal>` at module level, bound nowhere else in the module: every read of NAME in the module
-    is the literal (strings only: they are what rules match on - keys, strategies, feature names)"""
+    is the literal (strings only: they are what rules match on - keys, strategies, feature names).  `imported`:
+    names this module imports (and binds nowhere else) from package modules where they are such constants."""
     stores: Dict[str, int] = {}
     for n in ast.walk(tree):
         if isinstance(n, ast.Name) and isinstance(n.ctx, (ast.Store, ast.Del)):
@@ -434,6 +465,9 @@ def _inline_module_constants(tree: ast.Module) -> None:
         if isinstance(st, ast.Assign) and len(st.targets) == 1 and isinstance(st.targets[0], ast.Name) and isinstance(st.value, ast.Constant) and isinstance(st.value.value, str):
             if stores.get(st.targets[0].id) == 1:
                 consts[st.targets[0].id] = st.value
+    for name, value in (imported or {}).items():
+        if stores.get(name) == 1:
+            consts[name] = ast.Constant(value=value)
     if not consts:
         return
 
@@ -446,8 +480,8 @@ def _inline_module_constants(tree: ast.Module) -> None:
     Sub().visit(tree)
 
 
-def canonicalise(tree: ast.Module, signatures: Dict[str, List[str]]) -> ast.Module:
-    _inline_module_constants(tree)
+def canonicalise(tree: ast.Module, signatures: Dict[str, List[str]], imported: Optional[Dict[str, str]] = None) -> ast.Module:
+    _inline_module_constants(tree, imported)
     canon = Canon(signatures)
     canon.shadowed = {n.id for n in ast.walk(tree) if isinstance(n, ast.Name) and isinstance(n.ctx, ast.Store)} | {a.arg for a in ast.walk(tree) if isinstance(a, ast.arg)}
     tree = canon.visit(tree)
